@@ -378,3 +378,87 @@ theorem decode_eq_some_iff (b : BaseN) (hid : b.translate = id) (cs : List Char)
   · rintro rfl; exact b.decode_encode bs
 
 end IrohModel.BaseN
+
+namespace IrohModel
+
+/-! ### byte-string variants -/
+
+theorem toNat_charOfNat_small (n : Nat) (h : n < 256) : (Char.ofNat n).toNat = n := by
+  have hv : n.isValidChar := Or.inl (by omega)
+  unfold Char.ofNat
+  rw [dif_pos hv]
+  unfold Char.ofNatAux Char.toNat
+  simp
+
+@[simp] theorem byteOfChar_charOfByte (x : UInt8) : byteOfChar (charOfByte x) = x := by
+  unfold byteOfChar charOfByte
+  rw [toNat_charOfNat_small _ (by have := x.toNat_lt; omega), UInt8.ofNat_toNat]
+
+theorem charOfByte_byteOfChar {c : Char} (h : c.toNat < 256) : charOfByte (byteOfChar c) = c := by
+  unfold byteOfChar charOfByte
+  rw [UInt8.toNat_ofNat', Nat.mod_eq_of_lt (by omega), Char.ofNat_toNat]
+
+theorem hexLower_ascii : hexLower.Ascii := by unfold BaseN.Ascii; decide
+theorem hexPermissive_ascii : hexPermissive.Ascii := by unfold BaseN.Ascii; decide
+theorem base32_ascii : base32.Ascii := by unfold BaseN.Ascii; decide
+theorem base32Hex_ascii : base32Hex.Ascii := by unfold BaseN.Ascii; decide
+theorem base32Dnssec_ascii : base32Dnssec.Ascii := by unfold BaseN.Ascii; decide
+theorem zbase32_ascii : zbase32.Ascii := by unfold BaseN.Ascii; decide
+theorem base64Url_ascii : base64Url.Ascii := by unfold BaseN.Ascii; decide
+
+namespace BaseN
+
+theorem map_charOfByte_encodeBytes (b : BaseN) (ha : b.Ascii) (bs : List UInt8) :
+    (b.encodeBytes bs).map charOfByte = b.encode bs := by
+  unfold encodeBytes
+  rw [List.map_map]
+  conv => rhs; rw [← List.map_id (b.encode bs)]
+  apply List.map_congr_left
+  intro c hc
+  have := ha c (b.encode_subset_alphabet bs c hc)
+  exact charOfByte_byteOfChar (by omega)
+
+/-- Byte-level round trip. -/
+theorem decodeBytes_encodeBytes (b : BaseN) (ha : b.Ascii) (bs : List UInt8) :
+    b.decodeBytes (b.encodeBytes bs) = some bs := by
+  unfold decodeBytes
+  rw [b.map_charOfByte_encodeBytes ha, b.decode_encode]
+
+/-- Byte-level canonical form of every accepted input. -/
+theorem encodeBytes_of_decodeBytes (b : BaseN) {s bs : List UInt8}
+    (h : b.decodeBytes s = some bs) : s.map b.translateByte = b.encodeBytes bs := by
+  unfold decodeBytes at h
+  have := b.encode_of_decode h
+  unfold encodeBytes
+  rw [← this, List.map_map, List.map_map]
+  rfl
+
+theorem length_encodeBytes (b : BaseN) (bs : List UInt8) :
+    (b.encodeBytes bs).length = b.encodeLen bs.length := by
+  simp [encodeBytes, length_encode]
+
+theorem length_of_decodeBytes (b : BaseN) {s bs : List UInt8}
+    (h : b.decodeBytes s = some bs) : b.decodeLen s.length = some bs.length := by
+  have := b.length_of_decode h
+  simpa using this
+
+theorem decodeBytes_none_of_decodeLen (b : BaseN) {s : List UInt8}
+    (h : b.decodeLen s.length = none) : b.decodeBytes s = none := by
+  apply b.decode_none_of_decodeLen
+  simpa using h
+
+/-- For a spec without translation the accepted byte strings are exactly the encodings. -/
+theorem decodeBytes_eq_some_iff (b : BaseN) (ha : b.Ascii) (hid : b.translate = id)
+    (s bs : List UInt8) : b.decodeBytes s = some bs ↔ s = b.encodeBytes bs := by
+  constructor
+  · intro h
+    have := b.encodeBytes_of_decodeBytes h
+    rw [← this]
+    conv => lhs; rw [← List.map_id s]
+    apply List.map_congr_left
+    intro x _
+    simp [translateByte, hid]
+  · rintro rfl; exact b.decodeBytes_encodeBytes ha bs
+
+end BaseN
+end IrohModel
